@@ -1,6 +1,6 @@
 (* C01 — a compiled field returns exactly what composing the user functions returns.
    Property theorems only; proofs live in Proofs/{Sim,L2,Counts,C01Main,C01Inst}.v. *)
-From Connectome Require Import Values Attrs VM Edges Evaluator L2 C01Main C01Inst EdgeFacts Examples.
+From Connectome Require Import Values Attrs VM Edges Evaluator L2 HashSound SpecEq C01Main C01Inst C01Readable EdgeFacts Examples.
 Local Open Scope list_scope.
 
 (* The generic statement: ANY graph shape whose parents precede their children, ARBITRARY generator trees for
@@ -40,6 +40,18 @@ Theorem C01_refines :
     call (shape g) (gens_of g) apply raises cstore cget cset interfere ins o σ k' = Finished cstore v s'.
 Proof. exact refines_cachefree. Qed.
 Print Assumptions C01_refines.
+
+(* In the words of the property: if evaluating the user functions recursively in dependency order ([sem]: positional
+   arguments in declared order, keyword arguments split from the right, products as tuples in request order) gives
+   v, then calling the compiled function returns v. *)
+Theorem C01_returns_composition :
+  forall (g : graph) apply raises ins (cstore : Type) cget cset interfere o F h v (σ : cstore),
+  wf g -> no_cache g -> (forall n e ps, nth n g Leaf = Inner e ps -> node_ok e ps) -> o <= List.length g ->
+  sem apply raises g ins F o = Some (h, v) ->
+  exists k s', forall k', k <= k' ->
+    call (shape g) (gens_of g) apply raises cstore cget cset interfere ins o σ k' = Finished cstore (SVal v) s'.
+Proof. exact composes_cachefree. Qed.
+Print Assumptions C01_returns_composition.
 
 (* no internal assertion, eviction or stack-discipline error ever surfaces *)
 Theorem C01_never_stuck :
